@@ -4,6 +4,7 @@
 # (cargo `paths` override; own target/output dir per lane), records the outcome in seeded/<name>/meta.json.
 set -u
 lane=$1; name=$2; tier=$3; shift 3
+ROOT=${VERIF_ROOT:-/verif}   # which revision of the machinery to run (default: the live one)
 copy=/tmp/evalrepo-$lane; scratch=/tmp/evalscratch-$lane
 rm -rf $copy; mkdir -p $copy $scratch
 rsync -a --exclude target --exclude .git /repo/ $copy/
@@ -15,11 +16,11 @@ else
   meta=/verif/seeded/$name/meta.json
 fi
 for p in "$@"; do
-  out=$(cd /verif && QWT_REPO=$copy QWT_SCRATCH=$scratch ./check $p $tier 2>$scratch/stderr-$p.log); rc=$?
+  out=$(cd $ROOT && QWT_REPO=$copy QWT_SCRATCH=$scratch ./check $p $tier 2>$scratch/stderr-$p.log); rc=$?
   line=$(echo "$out" | grep -m1 '^VIOLATION' || true)
   detail=$(grep -m1 '^  ' $scratch/stderr-$p.log | cut -c1-300)
   echo "$name $p $tier rc=$rc $line :: $detail"
-  if [ -n "$meta" ]; then
+  if [ -n "$meta" ] && [ "$ROOT" = /verif ]; then
     python3 - "$meta" "$p" "$tier" "$rc" "$line" "$detail" <<'PY'
 import json,sys
 m,p,t,rc,line,detail=sys.argv[1:]
